@@ -72,12 +72,27 @@ where
     }
 }
 
+/// Recognise a global option LiPE has no support for and fail with an explicit error
+fn unsupported_option<'a>(
+    identifier: &'static str,
+) -> impl Parser<&'a str, GlobalOption, ContextError> {
+    preceded(
+        identifier,
+        cut_err(preceded(
+            multispace0,
+            fail.context(expected("unsupported_option")),
+        )),
+    )
+    .context(label(identifier))
+}
+
 impl Parseable for GlobalOption {
     fn parse(input: &mut &'_ str) -> PResult<GlobalOption> {
         alt((
             literal("-depth").value(GlobalOption::Depth),
-            unary!("-maxdepth", GlobalOption::MaxDepth, u32::parse),
-            unary!("-mindepth", GlobalOption::MinDepth, u32::parse),
+            // Disabled in LiPE: refuse them here, RunOptions has nowhere to store their value
+            unsupported_option("-maxdepth"),
+            unsupported_option("-mindepth"),
             unary!("-threads", GlobalOption::Threads, u32::parse),
         ))
         .context(label("global_option"))
